@@ -2,6 +2,7 @@ use crate::sync::{Mutex, ResourceSignature, ResourceType};
 use shuttle_engine::runtime::execution::ExecutionState;
 use shuttle_engine::runtime::storage::StorageKey;
 use shuttle_engine::runtime::task::clock::VectorClock;
+use shuttle_engine::runtime::thread;
 use std::cell::RefCell;
 use std::rc::Rc;
 use std::sync::atomic::{AtomicUsize as StdAtomicUsize, Ordering};
@@ -98,6 +99,10 @@ impl Once {
 
     /// Returns `true` if some [`Once::call_once()`] call has completed successfully.
     pub fn is_completed(&self) -> bool {
+        // Reading the completion state is a visible operation: other tasks must get the chance to
+        // run (and complete the `Once`) between the caller's previous operation and this read.
+        thread::switch();
+
         ExecutionState::with(|state| {
             let init = match self.get_state(state) {
                 Some(init) => init,
